@@ -28,6 +28,7 @@ class Unit:
     kind: str = 'contract'          # 'contract' | 'lemma' | 'bounded'
     unwind: Optional[int] = None    # bounded only
     bound_desc: str = ''            # bounded only: the stated bound
+    partial: bool = False           # bounded only: cut paths after `unwind` iterations instead of asserting the bound (spin loops)
     dfcc: bool = True
     reach: bool = True              # vacuity guard: end of harness must be reachable
     reach_timeout: int = 120
